@@ -160,6 +160,9 @@ type record struct {
 	Closing  []string `json:"closing"`
 	Reread   []string `json:"reread"`
 	ApplyErr int      `json:"applyerr"`
+	// calls per segment handed out / operators re-read per segment
+	SegLens    []int `json:"seglens,omitempty"`
+	RereadLens []int `json:"rereadlens,omitempty"`
 
 	prog     *program // the Builder program this stream is part of
 	stream   int      // ... and its index in it
@@ -180,8 +183,12 @@ func (r *record) tla() map[string]any {
 		return v
 	}
 	if r.Kind == "builder" {
-		return map[string]any{"kind": "builder", "origin": r.Origin, "pre2": r.Pre2, "calls": strs(r.Calls), "errat": r.ErrAt,
+		m := map[string]any{"kind": "builder", "origin": r.Origin, "pre2": r.Pre2, "calls": strs(r.Calls), "errat": r.ErrAt,
 			"closeok": r.CloseOK, "closing": strs(r.Closing), "reread": strs(r.Reread), "applyerr": r.ApplyErr}
+		if r.SegLens != nil && r.RereadLens != nil {
+			m["seglens"], m["rereadlens"] = r.SegLens, r.RereadLens
+		}
+		return m
 	}
 	ops := r.Ops
 	if ops == nil {
@@ -494,9 +501,20 @@ func classify(r *record) (key, what string) {
 		if r.Pre2 {
 			v = "1.7"
 		}
-		return fmt.Sprintf("builder/stream%d-after-%s/v%s/%s", r.stream+1, r.prog.mode, v, strings.Join(r.Calls, ".")),
-			fmt.Sprintf("one Builder (PDF %s) used for %d streams (%s between them): stream %d made by calls %v: Err after call %d, Close ok=%v, closing operators %v, re-read %v, ApplyOperator refuses at %d - not a valid, balanced stream for that version (Nesting model)",
-				v, len(r.prog.streams), r.prog.mode, r.stream+1, r.Calls, r.ErrAt, r.CloseOK, r.Closing, r.Reread, r.ApplyErr)
+		order := "each segment serialised as soon as it was handed out"
+		mode := r.prog.mode
+		if r.prog.deferred {
+			order = "the segments kept and serialised after the Builder had finished"
+			mode += "-kept"
+		}
+		if r.prog.mode == "harvest" {
+			return fmt.Sprintf("builder/harvest-segments/%s/v%s/%s", mode, v, strings.Join(r.Calls, ".")),
+				fmt.Sprintf("one Builder (PDF %s), one stream harvested in segments of %v calls (%s): calls %v: Err after call %d, Close ok=%v, closing operators %v, segments re-read as %v (%v operators each), ApplyOperator refuses at %d - the segments are not the calls that produced them, or not a valid, balanced stream (Nesting model)",
+					v, r.SegLens, order, r.Calls, r.ErrAt, r.CloseOK, r.Closing, r.Reread, r.RereadLens, r.ApplyErr)
+		}
+		return fmt.Sprintf("builder/stream%d-after-%s/v%s/%s", r.stream+1, mode, v, strings.Join(r.Calls, ".")),
+			fmt.Sprintf("one Builder (PDF %s) used for %d streams (%s between them; %s): stream %d made by calls %v: Err after call %d, Close ok=%v, closing operators %v, re-read %v, ApplyOperator refuses at %d - not the calls that produced it, or not a valid, balanced stream for that version (Nesting model)",
+				v, len(r.prog.streams), r.prog.mode, order, r.stream+1, r.Calls, r.ErrAt, r.CloseOK, r.Closing, r.Reread, r.ApplyErr)
 	}
 	if r.Kind == "builder" {
 		return "builder/" + strings.Join(r.Calls, "."),
@@ -568,13 +586,14 @@ type replayRec struct {
 	Calls  []string `json:"calls,omitempty"`
 	Text   string   `json:"text,omitempty"`
 	// a Builder used for several streams
-	Mode    string     `json:"mode,omitempty"`
-	Streams [][]string `json:"streams,omitempty"`
+	Mode     string     `json:"mode,omitempty"`
+	Deferred bool       `json:"deferred,omitempty"`
+	Streams  [][]string `json:"streams,omitempty"`
 }
 
 func replayCase(r *record) any {
 	if r.Kind == "builder" && r.prog != nil {
-		return replayRec{Side: "program", Pre2: r.prog.pre2, Mode: r.prog.mode, Streams: r.prog.streams}
+		return replayRec{Side: "program", Pre2: r.prog.pre2, Mode: r.prog.mode, Deferred: r.prog.deferred, Streams: r.prog.streams}
 	}
 	if r.Kind == "builder" {
 		return replayRec{Side: "builder", Pre2: r.Pre2, Calls: r.Calls}
@@ -749,14 +768,14 @@ func replay(ctx *core.Ctx, raw json.RawMessage) error {
 	case "builder":
 		col.execBuilder("replay", rc.Pre2, rc.Calls, nil)
 	case "program":
-		col.execProgram("replay", program{pre2: rc.Pre2, mode: rc.Mode, streams: rc.Streams})
+		col.execProgram("replay", program{pre2: rc.Pre2, mode: rc.Mode, deferred: rc.Deferred, streams: rc.Streams})
 	default:
 		return core.Infra("replay: unknown side %q", rc.Side)
 	}
 	for _, r := range col.recs {
 		switch r.Kind {
 		case "builder":
-			fmt.Printf("  builder: calls %v errat=%d closeok=%v closing=%v reread=%v applyerr=%d %s\n", r.Calls, r.ErrAt, r.CloseOK, r.Closing, r.Reread, r.ApplyErr, r.errText)
+			fmt.Printf("  builder: calls %v (segments %v) errat=%d closeok=%v closing=%v reread=%v (segments %v) applyerr=%d %s\n", r.Calls, r.SegLens, r.ErrAt, r.CloseOK, r.Closing, r.Reread, r.RereadLens, r.ApplyErr, r.errText)
 		case "scan":
 			fmt.Printf("  scan record (segments %v, source %q): %q -> %s\n", r.Pieces, r.Chunks, clip(c01.Unints(r.Bytes), 300), opsSig(r.got))
 		default:
